@@ -817,10 +817,10 @@ impl Extensions {
     pub fn remove_present_fn(&mut self, id: Id) {
         remove_sorted_list!(self.present_fn, id);
     }
-    /// Get a reference to the [`Present`] file extensions bound to a predicate.
+    /// Get a reference to the [`Present`] extensions bound to a [predicate](If).
     #[must_use]
-    pub fn get_present_fn(&self) -> &HashMap<CompactString, Present> {
-        &self.present_file
+    pub fn get_present_fn(&self) -> &[(Id, If, Present)] {
+        &self.present_fn
     }
     /// Adds a [`Package`] extension, used to make last-minute changes to response. Higher [`Id::priority()`] extensions are ran first.
     pub fn add_package(&mut self, extension: Package, id: Id) {
